@@ -159,12 +159,16 @@ def run(tier, replay=None):
         mc(chk, tier)
         nsteps = steps(chk, tier, exe, d)
         nruns = runs(chk, tier, exe, d)
-        chk.set("traces_validated_against_impl", nsteps + nruns)
-        chk.set("distinct_nontrivial", nsteps + nruns)
-        chk.set("evaluations", chk.cov["step_records"] + chk.cov["runs_validated"])
+        # the image the instructions are fetched from is the file's image: hexsim's loader against BinFormat!Loaded
+        import binlib
+        nload = binlib.loader_conformance(chk, d)
+        chk.set("traces_validated_against_impl", nsteps + nruns + nload)
+        chk.set("distinct_nontrivial", nsteps + nruns + nload)
+        chk.set("evaluations", chk.cov["step_records"] + chk.cov["runs_validated"] + nload)
         chk.set("rule", "single steps: 256 instruction bytes x seeded corner/random register, pc-lane and memory states plus the "
                         "system-call grid (distinct by construction of the seeded grid; non-trivial = HexISA defines the step); "
-                        "runs: seeded random instruction-level programs and the repository's asm/X programs")
+                        "runs: seeded random instruction-level programs and the repository's asm/X programs; loader: every file of BinFormat!Files "
+                        "(complete files with and without debug tables, files cut at every length inside the image)")
         chk.assumptions += ["HexISA.tla is a faithful transcription of hexb.pdf pp.4-10",
                             "the recorder's native address filter is used only to avoid out-of-array accesses; TLC confirms every refused step is undefined",
                             "TLC, SANY and the CommunityModules Json/IOUtils overrides"]
